@@ -248,11 +248,11 @@ def run(ctx):
     ctx.stats["R1.decoder_allocation_sites"] = nalloc
     # ---------------------------------------------------------------- R5 by reference
     ctx.rule("R5", "the prescribed error is raised for exactly the hostile values: operand roles and strictness of the final-size, "
-                   "stream-limit and stream-count comparisons (C12-R1/R5, C11-R5 and C13-R11 obligations re-evaluated)")
+                   "stream-limit and stream-count comparisons (C12-R1/R5, C11-R5, C13-R11 and C14-R3 — one replacement id per retirement — re-evaluated)")
     import importlib
     from qlint import framework as fw
     n5 = 0
-    for pid, keep in (("C12", lambda o: o.rule in ("R1", "R5")), ("C11", lambda o: o.rule == "R5"), ("C13", lambda o: o.rule == "R11")):
+    for pid, keep in (("C12", lambda o: o.rule in ("R1", "R5")), ("C11", lambda o: o.rule == "R5"), ("C13", lambda o: o.rule == "R11"), ("C14", lambda o: o.rule == "R3")):
         sub = fw.Ctx(pid, ctx.tier, ctx.seed, prog)
         importlib.import_module("rules." + pid).run(sub)
         for o in sub.obs:
